@@ -726,6 +726,25 @@ def boundary_numbers(ints):
     return xs
 
 
+def source_step(run):
+    """(inside common.Lock) the source text: NumberToJson.py as a program of Model/PyMini.v, Canonicalize.py as
+    facts, regenerated; then the obligations of Props/C16Src.v.  Used by C16 and by C06 (whose ids are specified
+    through the RFC 8785 text).  -> the integer literals of the regenerated convert2Es6Format (or None)"""
+    src_ints = None
+    for name, fn, out in (("tr_numtojson", tr_numtojson.translate, "NumToJson.v"),
+                          ("tr_numtojson.translate_canon", tr_numtojson.translate_canon, "CanonFacts.v")):
+        try:
+            text, meta = fn(common.REPO, common.PY)
+            common.write_if_changed(os.path.join(common.COQ, "Gen", out), text)
+            if out == "NumToJson.v":
+                src_ints = sorted({int(m) for m in re.findall(r"\(IL \(?(-?\d+)\)?\)", text)})
+        except Exception as e:  # noqa: BLE001 -- fail closed
+            run.broken.append(Broken("translator", name, {"error": "%s: %s" % (type(e).__name__, str(e)[-800:])}))
+    res2 = common.build_props("Props/C16Src.v")
+    run.add_build(res2, "make -C coq Props/C16Src.vo (coqc 8.16.1, full .vo) + Print Assumptions per theorem")
+    return src_ints
+
+
 def check(run):
     run.coverage["rule"] = (
         "numbers: doubles by bit pattern with the exponent field uniform over 0..2046 (subnormals, mantissa edge patterns), "
@@ -736,22 +755,10 @@ def check(run):
         "NaN/Infinity and lone surrogates. Each value goes through canonicalize(v, utf8=False) and the Coq model; numbers "
         "also through py_repr/es6_tostring from independently obtained shortest digits. Non-trivial = the result is a text "
         "(not an exception) and the value is not a bare null/true/false.")
-    src_ints = None
     with common.Lock():
-        # the source text: NumberToJson.py as a program of Model/PyMini.v, Canonicalize.py as facts
-        for name, fn, out in (("tr_numtojson", tr_numtojson.translate, "NumToJson.v"),
-                              ("tr_numtojson.translate_canon", tr_numtojson.translate_canon, "CanonFacts.v")):
-            try:
-                text, meta = fn(common.REPO, common.PY)
-                common.write_if_changed(os.path.join(common.COQ, "Gen", out), text)
-                if out == "NumToJson.v":
-                    src_ints = sorted({int(m) for m in re.findall(r"\(IL \(?(-?\d+)\)?\)", text)})
-            except Exception as e:  # noqa: BLE001 -- fail closed
-                run.broken.append(Broken("translator", name, {"error": "%s: %s" % (type(e).__name__, str(e)[-800:])}))
+        src_ints = source_step(run)
         res = common.build_props("Props/C16.v")
         run.add_build(res, "make -C coq Props/C16.vo Props/C16Src.vo (coqc 8.16.1, full .vo) + Print Assumptions per theorem")
-        res2 = common.build_props("Props/C16Src.v")
-        run.add_build(res2, "make -C coq Props/C16.vo Props/C16Src.vo (coqc 8.16.1, full .vo) + Print Assumptions per theorem")
     run.coverage["source_text"] = {"numtojson_int_literals": src_ints, "pinned_int_literals": PINNED_INTS}
 
     rng = run.rng
